@@ -29,7 +29,11 @@ extern "C" int LLVMFuzzerTestOneInput(const uint8_t *data, size_t size) {
     for (size_t i = 0; i < words.size(); i++)
         words[i] = static_cast<uint32_t>(data[4 * i]) | (static_cast<uint32_t>(data[4 * i + 1]) << 8) | (static_cast<uint32_t>(data[4 * i + 2]) << 16) |
                    (static_cast<uint32_t>(data[4 * i + 3]) << 24);
+    static uint64_t serial = 0;
+    for (auto &p : Ctx::created()) unlink(p.c_str());
+    Ctx::created().clear();
     Ctx ctx;
+    ctx.serial = ++serial;
     ctx.work = g_work;
     ctx.stats = &g_stats;
     g_stats.recording = false;
